@@ -34,6 +34,7 @@ func init() {
 			}
 			externEffects[key] = func(lm *loopMods) {
 				lm.tok = true
+				lm.nonFresh = true
 				lm.addType(types.Typ[types.Uint8], false)
 			}
 			aname := fmt.Sprintf("AppendUint%d", n*8)
@@ -70,15 +71,7 @@ func init() {
 	externModels["net/netip.(Addr).AsSlice"] = func(f *Frame, instr ssa.Instruction, st *State, args []Val, pos token.Pos) []Val {
 		g := f.g
 		a := args[0]
-		g.declareFun("addr_len", addrSorts(a), SInt)
-		ln := g.name("alen", app("addr_len", SInt, a.Comps...))
-		g.assume(boolLit(true), tOr(tEq(ln, intLit(0)), tEq(ln, intLit(4)), tEq(ln, intLit(16))))
-		ln.Lo, ln.Hi = big.NewInt(0), big.NewInt(16)
-		// Is4/Is6 agree with the length
-		is4 := g.pureApp("(net/netip.Addr).Is4", []Val{a}, tBool, st)
-		is6 := g.pureApp("(net/netip.Addr).Is6", []Val{a}, tBool, st)
-		valid := g.pureApp("(net/netip.Addr).IsValid", []Val{a}, tBool, st)
-		g.assume(boolLit(true), tAnd(tEq(is4.Comps[0], tEq(ln, intLit(4))), tEq(is6.Comps[0], tEq(ln, intLit(16))), tEq(valid.Comps[0], tNot(tEq(ln, intLit(0))))))
+		ln := g.addrFacts(a, st)
 		v := Val{Comps: []Term{g.alloc(st, intLit(16)), ln, ln}}
 		k := compKey(elemKey(types.Typ[types.Uint8]), 0)
 		arr := g.heapGet(st, k, arrSort(SInt))
@@ -89,6 +82,26 @@ func init() {
 		// nil for the zero Addr
 		ptr := g.name("asl", tIte(tEq(ln, intLit(0)), intLit(0), v.Comps[0]))
 		return []Val{{Typ: instrType(instr), Comps: []Term{ptr, ln, ln}}}
+	}
+	// netip.AddrFromSlice: the address whose canonical bytes are the slice (4 or 16 octets), else the zero Addr
+	externModels["net/netip.AddrFromSlice"] = func(f *Frame, instr ssa.Instruction, st *State, args []Val, pos token.Pos) []Val {
+		g := f.g
+		s := args[0]
+		addrT := instr.(ssa.Value).Type().(*types.Tuple).At(0).Type()
+		r := g.freshVal("addr", addrT)
+		ok := g.name("afs_ok", tOr(tEq(s.Comps[1], intLit(4)), tEq(s.Comps[1], intLit(16))))
+		ln := g.addrFacts(r, st)
+		g.assume(st.cond, tImp(ok, tEq(ln, s.Comps[1])))
+		var zero []Term
+		for _, c := range r.Comps {
+			zero = append(zero, tEq(c, intLit(0)))
+		}
+		g.assume(st.cond, tImp(tNot(ok), tAnd(zero...)))
+		arr := g.heapGet(st, compKey(elemKey(types.Typ[types.Uint8]), 0), arrSort(SInt))
+		for i := 0; i < 16; i++ {
+			g.assume(st.cond, tImp(tAnd(ok, tCmp("<", intLit(int64(i)), s.Comps[1])), tEq(g.addrByte(r, i), tSelect(arr, tAdd(s.Comps[0], intLit(int64(i))), SInt))))
+		}
+		return []Val{r, {Typ: tBool, Comps: []Term{ok}}}
 	}
 	// sync primitives: sequential semantics (assumption A5)
 	for _, k := range []string{
@@ -157,6 +170,7 @@ func (f *Frame) bePut(st *State, b Val, v Val, n int, bigEnd bool, pos token.Pos
 	g.frameStore(st, elemKey(types.Typ[types.Uint8]), b.Comps[0], intLit(int64(n)), pos, src)
 	k := compKey(elemKey(types.Typ[types.Uint8]), 0)
 	arr := g.heapGet(st, k, arrSort(SInt))
+	sum := intLit(0)
 	for i := 0; i < n; i++ {
 		var sh uint
 		if bigEnd {
@@ -164,11 +178,16 @@ func (f *Frame) bePut(st *State, b Val, v Val, n int, bigEnd bool, pos token.Pos
 		} else {
 			sh = uint(8 * i)
 		}
-		bt := tModE(tDivE(v.Comps[0], bigLit(pow2(sh))), intLit(256))
+		bt := g.name("byte", tModE(tDivE(v.Comps[0], bigLit(pow2(sh))), intLit(256)))
+		sum = tAdd(sum, tMul(bt, bigLit(pow2(sh))))
 		arr = tStore(arr, tAdd(b.Comps[0], intLit(int64(i))), bt)
 	}
+	// arithmetic fact (a theorem for 0 <= v < 2^(8n)): the bytes recompose to the value
+	if g.noName == 0 && n > 2 {
+		g.assume(boolLit(true), tEq(v.Comps[0], sum))
+	}
 	g.heapSet(st, k, arr)
-	g.bumpTok(st)
+	g.bumpTokAt(st, &b.Comps[0], false)
 }
 
 // pureExternal: external functions known to have no effect on caller-visible memory; their results are
@@ -222,4 +241,26 @@ func (g *Gen) addrBE32(a Val) Term {
 		r = tAdd(r, tMul(g.addrByte(a, i), bigLit(pow2(uint(8*(3-i))))))
 	}
 	return r
+}
+
+// addrFacts: length of the canonical form and its relation to Is4/Is6/IsValid; the zero Addr has length 0;
+// IPv4 addresses are determined by their four bytes (trusted facts about net/netip).
+func (g *Gen) addrFacts(a Val, st *State) Term {
+	g.declareFun("addr_len", addrSorts(a), SInt)
+	ln := g.name("alen", app("addr_len", SInt, a.Comps...))
+	g.assume(boolLit(true), tOr(tEq(ln, intLit(0)), tEq(ln, intLit(4)), tEq(ln, intLit(16))))
+	ln.Lo, ln.Hi = big.NewInt(0), big.NewInt(16)
+	is4 := g.pureApp("(net/netip.Addr).Is4", []Val{a}, tBool, st)
+	is6 := g.pureApp("(net/netip.Addr).Is6", []Val{a}, tBool, st)
+	valid := g.pureApp("(net/netip.Addr).IsValid", []Val{a}, tBool, st)
+	g.assume(boolLit(true), tAnd(tEq(is4.Comps[0], tEq(ln, intLit(4))), tEq(is6.Comps[0], tEq(ln, intLit(16))), tEq(valid.Comps[0], tNot(tEq(ln, intLit(0))))))
+	if !g.declared["addr_axioms"] {
+		g.declared["addr_axioms"] = true
+		g.declareFun("addr_byte", append(addrSorts(a), SInt), SInt)
+		g.emit("(assert (= (addr_len 0 0 0) 0))")
+		g.emit("(assert (forall ((h1 Int) (l1 Int) (z1 Int)) (! (=> (= (addr_len h1 l1 z1) 0) (and (= h1 0) (= l1 0) (= z1 0))) :pattern ((addr_len h1 l1 z1)))))")
+		g.emit("(assert (forall ((h1 Int) (l1 Int) (z1 Int) (h2 Int) (l2 Int) (z2 Int)) (! (=> (and (= (addr_len h1 l1 z1) 4) (= (addr_len h2 l2 z2) 4) (= (addr_byte h1 l1 z1 0) (addr_byte h2 l2 z2 0)) (= (addr_byte h1 l1 z1 1) (addr_byte h2 l2 z2 1)) (= (addr_byte h1 l1 z1 2) (addr_byte h2 l2 z2 2)) (= (addr_byte h1 l1 z1 3) (addr_byte h2 l2 z2 3))) (and (= h1 h2) (= l1 l2) (= z1 z2))) :pattern ((addr_len h1 l1 z1) (addr_len h2 l2 z2)))))")
+		g.usedTrusted["net/netip: an IPv4 Addr is determined by its 4 bytes; the zero Addr is invalid"] = true
+	}
+	return ln
 }
